@@ -29,6 +29,8 @@ from __future__ import annotations
 import inspect
 import keyword
 import re
+from decimal import Decimal as _Decimal
+from fractions import Fraction as _Fraction
 
 from ..core import Infra, Prop, Violation, import_repo, hexs, unhexs
 
@@ -208,35 +210,115 @@ def static_vars(src):
 # ----------------------------------------------------------------------------------------------------------
 # line encoding
 # ----------------------------------------------------------------------------------------------------------
+# --- values of unusual but legal TYPE, and values that raise at one particular step ---------------------------
+class StrSub(str):
+    """a str subclass whose str() is not its raw data (raw data = 'raw:' + text)"""
+    def __str__(self):
+        return str.__getitem__(self, slice(4, None))
+
+
+class IntSub(int):
+    def __str__(self):
+        return "#%d" % int(self)
+
+
+class ListSub(list):
+    pass
+
+
+class TupSub(tuple):
+    pass
+
+
+class DictSub(dict):
+    pass
+
+
+class PoisonStr:
+    """str() raises (truthy); the render that evaluates it fails at that very step"""
+    def __str__(self):
+        raise RuntimeError("str() of this value raises")
+
+    def __repr__(self):
+        return "<poison-str>"
+
+
+class PoisonBool:
+    """bool() raises; str() is fine"""
+    def __bool__(self):
+        raise RuntimeError("bool() of this value raises")
+
+    def __str__(self):
+        return "pb"
+
+    __repr__ = __str__
+
+
+POISON = (PoisonStr, PoisonBool)
+
+
+def scalar_kind(v):
+    if isinstance(v, PoisonStr): return "x"
+    if isinstance(v, PoisonBool): return "y"
+    if isinstance(v, StrSub): return "S"
+    if isinstance(v, str): return "s"
+    if isinstance(v, bool): return "b"
+    if isinstance(v, IntSub): return "I"
+    if isinstance(v, int): return "i"
+    if isinstance(v, float): return "f"
+    if isinstance(v, _Fraction): return "F"
+    if isinstance(v, _Decimal): return "D"
+    if isinstance(v, range): return "r"
+    return "n"
+
+
+def s_text(v):
+    return "" if isinstance(v, PoisonStr) else str(v)
+
+
+def s_truthy(v):
+    return True if isinstance(v, PoisonBool) else bool(v)
+
+
+def is_poisoned(v):
+    return isinstance(v, POISON) or (isinstance(v, (list, tuple)) and any(isinstance(x, POISON) for x in v))
+
+
 def enc_item(it):
     if isinstance(it, dict):
-        return "m" + hexs(str(it)) + "".join("/" + hexs(str(k)) + "~" + hexs(str(v)) for k, v in it.items())
-    kind = "s" if isinstance(it, str) else "b" if isinstance(it, bool) else "i" if isinstance(it, int) else \
-        "f" if isinstance(it, float) else "n"
-    return kind + hexs(str(it))
+        return ("M" if isinstance(it, DictSub) else "m") + hexs(str(it)) \
+            + "".join("/" + hexs(str(k)) + "~" + hexs(str(v)) for k, v in it.items())
+    return scalar_kind(it) + hexs(s_text(it))
 
 
 def enc_ctx(ctx: dict) -> str:
     parts = []
     for n, v in ctx.items():
         if isinstance(v, (list, tuple)):
-            kind = "l" if isinstance(v, list) else "t"
+            kind = ("L" if isinstance(v, ListSub) else "l") if isinstance(v, list) else ("T" if isinstance(v, TupSub) else "t")
             parts.append(f"{hexs(n)}={kind}{int(bool(v))},{hexs(str(v))},L" + ";".join(enc_item(x) for x in v))
         elif isinstance(v, dict):
             parts.append(f"{hexs(n)}=m{int(bool(v))},{hexs(str(v))},D"
                          + "".join("/" + hexs(str(k)) + "~" + hexs(str(x)) for k, x in v.items()))
         else:
-            kind = "s" if isinstance(v, str) else "b" if isinstance(v, bool) else "i" if isinstance(v, int) else \
-                "f" if isinstance(v, float) else "n"
-            parts.append(f"{hexs(n)}={kind}{int(bool(v))},{hexs(str(v))}")
-    return " ".join(["ctx"] + parts)
+            parts.append(f"{hexs(n)}={scalar_kind(v)}{int(s_truthy(v))},{hexs(s_text(v))}")
+    # a context holding a value whose str()/bool() raises: the renders under it are run on the real code but not judged
+    # (search-only lines, see notes); what matters is what the instance does AFTERWARDS
+    return " ".join(["ctx"] + parts + (["!poison"] if any(is_poisoned(v) for v in ctx.values()) else []))
 
 
 def dec_scalar(kind, text):
     if kind == "s": return text
+    if kind == "S": return StrSub("raw:" + text)
     if kind == "i": return int(text)
+    if kind == "I": return IntSub(text[1:])
     if kind == "b": return text == "True"
     if kind == "f": return float(text)
+    if kind == "F": return _Fraction(text)
+    if kind == "D": return _Decimal(text)
+    if kind == "r": return range(*[int(x) for x in text[6:-1].split(",")])
+    if kind == "x": return PoisonStr()
+    if kind == "y": return PoisonBool()
     return None
 
 
@@ -244,8 +326,8 @@ def dec_item(s):
     parts = s.split("/")
     kind, text = parts[0][0], unhexs(parts[0][1:])
     fields = [(unhexs(p.split("~")[0]), unhexs(p.split("~")[1])) for p in parts[1:]]
-    if kind == "m":
-        return dict(fields), {"text": text, "fields": fields}
+    if kind in "mM":
+        return (DictSub if kind == "M" else dict)(fields), {"text": text, "fields": fields}
     return dec_scalar(kind, text), {"text": text, "fields": []}
 
 
@@ -253,14 +335,16 @@ def dec_ctx(line):
     """-> (python context for the implementation, abstract context for the reference)"""
     py, ab = {}, {}
     for e in line.split()[1:]:
+        if e == "!poison":
+            continue
         n, rest = e.split("=", 1)
         f = rest.split(",")
         name, kind, truthy, text = unhexs(n), f[0][0], f[0][1] == "1", unhexs(f[1])
-        if kind in "lt":
+        if kind in "ltLT":
             body = f[2][1:]
             pairs = [dec_item(x) for x in body.split(";")] if body else []
             val = [p[0] for p in pairs]
-            py[name] = val if kind == "l" else tuple(val)
+            py[name] = {"l": list, "t": tuple, "L": ListSub, "T": TupSub}[kind](val)
             ab[name] = {"text": text, "truthy": truthy, "items": [p[1] for p in pairs]}
         elif kind == "m":
             fields = [(unhexs(p.split("~")[0]), unhexs(p.split("~")[1])) for p in f[2][1:].split("/") if p]
@@ -277,7 +361,9 @@ def has_brace(s: str) -> bool:
 
 
 # ----------------------------------------------------------------------------------------------------------
-NAMES = ["a", "b", "c", "xs", "ys", "flag", "name", "item", "index", "upper", "first", "last", "é1", "Big", "n_2"]
+# case variants of one name are DIFFERENT variables ("a"/"A", "name"/"Name", "ǆ"/"ǅ": lower / title case of one letter)
+NAMES = ["a", "b", "c", "xs", "ys", "flag", "name", "item", "index", "upper", "first", "last", "é1", "Big", "n_2",
+         "A", "Name", "ǆ", "ǅ"]
 FILTERS = ["upper", "lower", "trim", "title", "nofilter", "length", "json", "repr", "bang", "shout", "boom",
            "again", "twice"]
 # custom filter sets an instance can be constructed with ("none" = a plain Ribosome()).  Some override a builtin,
@@ -317,6 +403,11 @@ BTEXTS = ["{ }", "}{", "{\"k\": \"", "\"}", "{", "}", "{a}", "[{", "}]"]
 SAFE_VALS = ["v", "Hello World", " sp ", 0, 5, "", True, False, None, "a|b", "x y", "é", "#if a", ">t0", "?b",
              "\ud800", "a\nb", "ǆ", "C:\\new\\table.txt", "a\\\\b", "\\1", "\\g<0>", "x\\", "$1 & \\0",
              1.5, 0.0, -0.0, float("nan"), 1e+20, 10 ** 20, -3]
+# unusual but legal TYPES (appended: the slices SAFE_VALS[:5] / [:8] above stay what they were): str / int subclasses
+# whose str() is not their raw data, Fraction, Decimal (a falsy "0.0"), range (iterable, yet no list: not iterated)
+TYPED_VALS = [StrSub("raw:loud"), StrSub("raw:"), IntSub(7), IntSub(0), _Fraction(1, 3), _Fraction(0), _Decimal("0.0"),
+              _Decimal("2.50"), range(2), range(0)]
+TYPED_ITEMS = [DictSub({"a": "A3", "k": "K3"}), DictSub(), IntSub(4), StrSub("raw:it"), _Fraction(2, 5)]
 HOSTILE = ["{{a}}", "{{?b}}", "{{>t0}}", "{{#if a}}x{{/if}}", "}}", "{{", "{", "}", "{{index}}", "{{item}}",
            "{{name|upper}}", "{{#each xs}}q{{/each}}", "{{{", "x}y", "{{secret}}", "{{#else}}", "{{/if}}", "{{/each}}",
            "{{.}}", "{{c|dflt}}", "{{b|", "a}}", "{{>missing}}", "{{#if flag}}", "{{flag", {"k": "v"}, {"a": "{{b}}"}]
@@ -474,7 +565,7 @@ class C12(Prop):
         if loop:
             b.insert(R.randint(0, len(b)), ("var", R.choice([".", "item", "index", "first", "last", "a", "q"])))
         if incs and R.random() < 0.15:
-            b.insert(R.randint(0, len(b)), ("inc", R.choice(incs + ["missing"])))
+            b.insert(R.randint(0, len(b)), ("inc", R.choice(incs + ["missing", "T0"])))
         return b
 
     def _tmpl(self, R, incs, braces):
@@ -488,7 +579,7 @@ class C12(Prop):
                              self._body(R, braces, incs) if R.random() < 0.5 else None, ws()))
             elif k < 0.8: segs.append(("each", R.choice(["xs", "ys", "a", "xs"] + self._nm[len(NAMES):len(NAMES) + 1]),
                                        self._body(R, braces, incs, True), ws()))
-            elif k < 0.93: segs.append(("inc", R.choice(incs + ["missing"]) if incs else "missing"))
+            elif k < 0.93: segs.append(("inc", R.choice(incs + ["missing", "T0"]) if incs else "missing"))
             else: segs.append(("text", "t"))
         return segs
 
@@ -501,13 +592,15 @@ class C12(Prop):
 
     def _ctx(self, R, hostile):
         ctx = {}
-        pool = SAFE_VALS + (HOSTILE * 2 if hostile else [])
+        typed = R.random() < 0.25
+        pool = SAFE_VALS + (TYPED_VALS * 2 if typed else []) + (HOSTILE * 2 if hostile else [])
         for n in dict.fromkeys(self._nm):
             if R.random() < 0.6:
                 if n in ("xs", "ys") or (n not in NAMES and R.random() < 0.15):
-                    ip = SAFE_VALS[:8] + DICTS + ((HOSTILE[:20] + HDICTS) if hostile else [])
+                    ip = SAFE_VALS[:8] + DICTS + (TYPED_ITEMS * 2 if typed else []) + ((HOSTILE[:20] + HDICTS) if hostile else [])
                     v = [R.choice(ip) for _ in range(R.choice([0, 1, 1, 2, 3]))]
-                    ctx[n] = tuple(v) if R.random() < 0.15 else v
+                    k = R.random()
+                    ctx[n] = tuple(v) if k < 0.15 else (ListSub(v) if k < 0.3 else TupSub(v) if k < 0.4 else v) if typed else v
                 else:
                     ctx[n] = R.choice(pool)
         if R.random() < 0.1:
@@ -614,7 +707,7 @@ class C12(Prop):
                 elif r < 0.8 or not names:
                     ops.append(("render", i, R.choice(tops)))
                 else:
-                    ops.append(("translate", i, R.choice(names + ["nope"])))
+                    ops.append(("translate", i, R.choice(names + ["nope", "T0"])))
                 if names and R.random() < 0.2:       # re-register an included template (maybe after a render that raised)
                     k = R.randrange(len(names))
                     text = "ok" if R.random() < 0.3 else pr(self._tmpl(R, names[:k], braces))
@@ -635,6 +728,18 @@ class C12(Prop):
                     ops.append(("reg", i, "", "", "nameless"))           # no name at all: ValueError, registry unchanged
                 if R.random() < 0.08:
                     ops.append(("ctx", self._ctx(R, hostile)))
+                if R.random() < 0.04:
+                    # a fault at one particular step: a bound value whose str() / bool() raises (as a scalar or as a loop
+                    # item); the render under it is not judged, the renders AFTER it (clean bindings again) are
+                    bad = dict(ctx)
+                    bad[R.choice(["a", "b", "flag", "name"])] = R.choice([PoisonStr(), PoisonBool()])
+                    if R.random() < 0.6:
+                        bad[R.choice(["xs", "ys"])] = [R.choice(["i0", 1]), R.choice([PoisonStr(), PoisonBool()]), "i2"][:R.choice([2, 3])]
+                    top = R.choice(tops)
+                    ops += [("ctx", bad), ("render", i, top)]
+                    if names:
+                        ops.append(("translate", i, R.choice(names)))
+                    ops += [("ctx", ctx), ("render", i, top), ("render", i, R.choice(tops))]
             yield self.hcase(ctx, ops, "malformed" if malformed else "hostile values" if hostile else "delimiter-free values")
 
     def exhaustive(self, tier):
@@ -730,7 +835,8 @@ class C12(Prop):
                ("page", "page", "{{>section}}{{#if draft}}DRAFT{{#else}}FINAL{{/if}} {{>footer}}{{>nosuch}}{{>header_compact}}")]
         rctx = {"title": "Q3", "year": 2026, "points": ["up", "down"], "draft": False}
         looks = [("translate", 0, "page"), ("translate", 0, "header"), ("translate", 0, "header_compact"),
-                 ("render", 0, "{{>section}}/{{>hdr2}}/{{>footer_legal}}"), ("translate", 0, "hdr2")]
+                 ("render", 0, "{{>section}}/{{>hdr2}}/{{>footer_legal}}"), ("translate", 0, "hdr2"),
+                 ("render", 0, "{{>Header}}/{{>PAGE}}/{{>header }}"), ("translate", 0, "Page"), ("translate", 0, "page ")]
         for variant in ("key", "own", "none"):
             ents = [(k, {"key": k, "own": mn, "none": ""}[variant], sq) for k, mn, sq in lib]
             alias = [("hdr2", ents[0][1], ents[0][2])]
@@ -768,9 +874,9 @@ class C12(Prop):
         looksK = [("translate", 0, K), ("translate", 0, "page"), ("render", 0, "{{>" + K + "}}!{{b}}")]
         ways1 = ["ctor", "tmpl", "regO", "regN", "regX", "put"]
         ways2 = ["tmpl", "regO", "regN", "regX", "regE", "put", "putX"] if tier != "quick" else ["tmpl", "regO", "regN", "regX", "put"]
-        for w1 in ways1:
-            for w2 in ways2:
-                for strict in (False, True):
+        for i1, w1 in enumerate(ways1):
+            for i2, w2 in enumerate(ways2):
+                for strict in ((False, True) if tier != "quick" else ((i1 + i2) % 2 == 1,)):
                     ops = [("new", 0, strict, "none", [(K, K + "_v0", S1)] if w1 == "ctor" else [])]
                     if w1 != "ctor":
                         ops.append(way(w1, S1, True))
@@ -782,8 +888,8 @@ class C12(Prop):
                     ops += [way(w2, S3), ("translate", 0, K), ("strict", 0, not strict), ("translate", 0, K), ("translate", 0, "page")]
                     rereg.append(self.hcase({}, ops, f"re-registration after use: {w1} then {w2}"))
         # the same key on several live instances, holding different templates, rendered alternately
-        for strict in (False, True):
-            for wa, wb in (("tmpl", "tmpl"), ("regO", "put"), ("ctor", "regN"), ("put", "ctor")):
+        for i1, (wa, wb) in enumerate((("tmpl", "tmpl"), ("regO", "put"), ("ctor", "regN"), ("put", "ctor"))):
+            for strict in ((False, True) if tier != "quick" else (i1 % 2 == 1,)):
                 ops = []
                 for i, (w, seq) in enumerate(((wa, S1), (wb, S2))):
                     ops.append(("new", i, strict, "none", [(K, K + "_v0", seq)] if w == "ctor" else []))
@@ -797,6 +903,34 @@ class C12(Prop):
                         ops += [("translate", i, K), ("translate", i, "page")]
                 ops += [("tmpl", 1, K, S3), ("translate", 0, K), ("translate", 1, K), ("translate", 0, "page"), ("translate", 1, "page")]
                 rereg.append(self.hcase({}, ops, "one key, two live instances, different templates"))
+        # value-type probes: every construct over values of unusual but legal type
+        typed = []
+        for v in TYPED_VALS + [ListSub(["p", "q"]), ListSub(), TupSub(("p",)), [DictSub({"k": "K", "a": "IN"}), IntSub(3), StrSub("raw:s")],
+                               True, (), [_Fraction(1, 2), _Decimal("0"), range(1)]]:
+            ops = [("new", 0, False, "none"), ("tmpl", 0, "t0", "<{{a}}|{{b}}>"), ("new", 1, True, "bang"), ("tmpl", 1, "t0", "<{{a}}|{{b}}>")]
+            for c in cons + ["{{a|json}}", "{{a|repr}}", "{{a|bang}}", "{{#each a}}{{k}}{{a}}{{item|upper}};{{/each}}"]:
+                ops += [("render", 0, c)] + ([("render", 1, "x" + c + "y" + c)] if tier != "quick" else [])
+            typed.append(self.hcase({"a": v, "b": "B", "xs": ["i1", v] if not isinstance(v, (list, tuple)) else ["i1"]}, ops,
+                                    "value of unusual type: " + type(v).__name__))
+        # fault probes: str() / bool() of a bound value raises at one particular step (conditional pass, loop pass - also for
+        # a loop variable the body does not even use -, include pass, each of the four variable sub-passes, inside a
+        # filter), at top level and inside an included template; afterwards the same instance renders with clean bindings
+        faults = []
+        good = {"a": "A", "b": "B", "xs": ["i", "j"], "flag": 1}
+        FT = ["{{#if a}}T{{#else}}E{{/if}}{{q}}", "{{#each xs}}[{{index}}]{{/each}}{{q}}", "{{#each xs}}[{{item}}{{q}}]{{/each}}",
+              "{{a}}{{q}}", "{{?a}}{{q}}", "{{a|dflt}}{{q}}", "{{a|upper}}{{q}}", "{{a|again}}{{q}}",
+              "{{#if flag}}{{#each xs}}{{item}}{{/each}}{{/if}}{{a}}"]
+        bads = [dict(good, a=PoisonStr()), dict(good, a=PoisonBool()), dict(good, xs=["i", PoisonStr()]),
+                dict(good, xs=[PoisonBool(), "j"], flag=PoisonBool())]
+        for i1, ft in enumerate(FT):
+            for strict in ((False, True) if tier != "quick" else (i1 % 2 == 1,)):
+                ops = [("new", 0, strict, "reent"), ("tmpl", 0, "inner", ft), ("tmpl", 0, "page", "<{{>inner}}>{{b}}{{zz}}"),
+                       ("render", 0, ft), ("translate", 0, "page")]
+                for bad in bads:
+                    ops += [("ctx", bad), ("render", 0, ft), ("translate", 0, "page"), ("translate", 0, "inner"),
+                            ("ctx", good), ("render", 0, ft), ("translate", 0, "page"), ("render", 0, "{{>inner}}{{>page}}")]
+                ops += [("strict", 0, not strict), ("render", 0, ft), ("translate", 0, "page")]
+                faults.append(self.hcase(good, ops, "a value whose str()/bool() raises at one step; then clean renders"))
         # name probes: the same template shape over every special variable name, every entry point, strict or not,
         # truthy / falsy / list / missing bindings - the rendering must not depend on what a variable is called
         nameprobes = []
@@ -838,6 +972,9 @@ class C12(Prop):
                  "cases": nameprobes},
                 {"name": "pass-order probes", "cases": probes},
                 {"name": "registration probes (constructor mapping, register_template, create_template, direct assignment)", "cases": regs},
+                {"name": "value-type probes (str / int / list / tuple / dict subclasses, Fraction, Decimal, range)", "cases": typed},
+                {"name": "fault probes (str() / bool() of a bound value raises at one step; the instance renders on afterwards)",
+                 "cases": faults},
                 {"name": "re-registration probes (a key registered again after it was rendered: every way x every way, "
                          "own name equal / different / another key / absent; one key on two live instances)", "cases": rereg},
                 {"name": "history probes (several instances, renders after errors, re-registration)", "cases": hist}]
@@ -888,6 +1025,7 @@ class C12(Prop):
         obs = []
         py, ab = {}, {}
         insts = {}
+        poisoned = False
         for idx, line in enumerate(lines):
             t = line.split()
             op = t[0] if t else ""
@@ -895,8 +1033,9 @@ class C12(Prop):
                 obs.append("ok")
             elif op == "ctx":
                 py, ab = dec_ctx(line)
+                poisoned = "!poison" in t
                 for n_, v_ in py.items():
-                    if str(v_) != ab[n_]["text"] or bool(v_) != ab[n_]["truthy"]:
+                    if s_text(v_) != ab[n_]["text"] or s_truthy(v_) != ab[n_]["truthy"]:
                         raise Infra(f"ctx line does not describe its own value for {n_!r}: {line!r}")
                 obs.append("ok")
             elif op == "fenv":
@@ -955,6 +1094,20 @@ class C12(Prop):
                 obs.append("ok")
             elif (op in ("render", "translate") and len(t) == 3 or op == "trobj" and len(t) == 4) and t[1] in insts:
                 rb = insts[t[1]]
+                if poisoned:
+                    # search-only line: the real code runs (and fails wherever the poisoned value is first evaluated, or
+                    # does not), the outcome is not judged; the renders that FOLLOW on this instance are
+                    try:
+                        if op == "render":
+                            rb.synthesize(unhexs(t[2]), **py)
+                        elif op == "trobj":
+                            rb.translate(m.mRNA(sequence=unhexs(t[3]), name=unhexs(t[2])), **py)
+                        else:
+                            rb.translate(unhexs(t[2]), **py)
+                    except Exception:
+                        pass
+                    obs.append("poison")
+                    continue
                 try:
                     if op == "render":
                         p = rb.synthesize(unhexs(t[2]), **py)
@@ -981,6 +1134,7 @@ class C12(Prop):
         """yield (idx, op, arg, strict, templates, ab, fres, filters) per render line; everything is rebuilt from the
         lines: per instance its strictness, the filters it was GIVEN and its current registry"""
         ab, fenv, given, insts = {}, {}, {}, {}
+        poisoned = False
         for idx, line in enumerate(case["lines"]):
             t = line.split()
             op = t[0] if t else ""
@@ -991,6 +1145,7 @@ class C12(Prop):
             elif op == "ctx":
                 _, ab = dec_ctx(line)
                 fenv = {}
+                poisoned = "!poison" in t
             elif op == "fenv":
                 fenv = {}
                 for e in t[1:]:
@@ -1015,6 +1170,8 @@ class C12(Prop):
                 insts[t[1]]["set"] = t[2]
             elif (op in ("render", "translate") and len(t) == 3 or op == "trobj" and len(t) == 4) and t[1] in insts:
                 i = insts[t[1]]
+                if poisoned:
+                    continue
                 yield (idx, op, unhexs(t[3] if op == "trobj" else t[2]), i["strict"], dict(i["templates"]), ab, fenv.get(i["set"], {}),
                        given.get(i["set"], []), i["set"])
 
